@@ -37,7 +37,7 @@ ASSUMPTIONS = [
     "a normal member whose loc or scale is masked at a cell counts as masked there (union of the two masks; F80 until repaired)",
     "a plain ndarray member, a MaskedArray with mask=nomask and one with an all-False mask all mean: nothing masked",
     "finite float inputs at the unmasked positions (no NaN / inf); under a mask anything may be stored (nan, +-inf, 1e308: exercised)",
-    "a cell whose unmasked members all have weight 0 is undefined (numpy.ma: masked, or NaN for 0-d arrays) and is skipped",
+    "a cell whose unmasked members all have weight 0 has no value: every output must be masked there (NaN accepted for 0-d results, a numpy.ma quirk); it takes no part in the numeric comparisons",
 ]
 RULE = ("per aggregator: members 1..8, sample shapes 0-d..3-d, weights None/uniform/normalised/unnormalised/with zeros/dyadic, plain and masked, dyadic and "
         "general floats (plus 'members agree, scale ~ 0' for MixedNormal), from the seed; every case runs every option of the aggregator plus the metamorphic "
@@ -347,7 +347,11 @@ def undefined_cells(case):
 
 
 def mark_undefined(case, stats, per_cell=1, wide=()):
-    """Replace the outputs of undefined cells by SKIP (stats in `wide` have per_cell entries per cell)."""
+    """Cells where every UNMASKED member has weight 0 (zero weights together with masks): no weighted member predicts the
+    cell, so - a zero-weight member being the same as an absent one (C19_zero_weight_ignored_member_split, C19_masked_ignored:
+    [defined] agrees) - NO output may carry a value there: every statistic must be masked (numpy.ma answers NaN instead for
+    0-d results; accepted as 'no value').  A finite value is a property failure.  Afterwards the cells are SKIPped in the
+    numeric comparisons (stats in `wide` have per_cell entries per cell)."""
     und = undefined_cells(case)
     if not any(und):
         return stats
@@ -355,6 +359,10 @@ def mark_undefined(case, stats, per_cell=1, wide=()):
         if not isinstance(v, list):
             continue
         w = per_cell if k in wide else 1
+        for j, x in enumerate(v):
+            if und[j // w] and isinstance(x, Fraction):
+                raise Fail("oracle", "%s:value_where_only_zero_weight_members_are_unmasked:%s" % (case["agg"], k),
+                           dict(cell=j // w, value=float(x), weights=case["weights"], unmasked=[i for i in range(case["n"]) if not masked_at(case, i, j // w)]))
         stats[k] = [SKIP if und[j // w] else x for j, x in enumerate(v)]
     return stats
 
@@ -473,6 +481,19 @@ def without_zero_weight_members(case):
     return c
 
 
+def zero_weight_members_masked(case):
+    """The zero-weight members masked everywhere instead of removed (data AND mask of every output must agree)."""
+    ws = weights_of(case)
+    if ws is None or all(w != 0 for w in ws) or case.get("int_dtype") or partial_masks(case):
+        return None
+    cells = ncells(case["shape"])
+    c = dict(case)
+    base = case["mask"] if case["mask"] is not None else [[False] * cells for _ in range(case["n"])]
+    c["mask"] = [[True] * cells if ws[i] == 0 else list(base[i]) for i in range(case["n"])]
+    c["mask_loc"] = c["mask_scale"] = None
+    return c
+
+
 def split_member(case):
     """Member j (case['split']) twice, with 1/4 and 3/4 of its weight (exact in binary64)."""
     j = case.get("split")
@@ -510,7 +531,7 @@ def base_result(case, extra_desc=()):
     nt = case["n"] >= 2 and (case["mask"] is not None or k.split("+")[0] in ("normalised", "unnormalised") or "zeros" in k)
     nex = sum(exact_cells(case)) if case["agg"] != "malformed" else 0
     extra_desc = list(extra_desc) + ["exact_cells=%s" % ("0" if nex == 0 else "some"), "wtype=%s" % (case.get("wtype") or "list"), "dtype=%s" % (case.get("dtype") or ("int64" if case.get("int_dtype") else "f64")),
-                                     "reuse=%s" % bool(case.get("reuse")), "members=%s" % ("uniform-kind" if not case.get("kinds") else "mixed-kinds"), "partial_masks=%s" % partial_masks(case)]
+                                     "reuse=%s" % bool(case.get("reuse")), "only_zero_weight_unmasked_cells=%s" % ("some" if case["agg"] != "malformed" and any(undefined_cells(case)) else "0"), "members=%s" % ("uniform-kind" if not case.get("kinds") else "mixed-kinds"), "partial_masks=%s" % partial_masks(case)]
     return dict(ok=True, kind="oracle", clause="", nontrivial=nt,
                 sig=dict(agg=case["agg"], masked=case["mask"] is not None),
                 desc=["n=%d" % case["n"], "w=" + k, "masked=%s" % (case["mask"] is not None), "dims=%d" % len(case["shape"]),
@@ -676,6 +697,9 @@ def metamorphic(case, imp, impl, tols, m, name):
     zc = without_zero_weight_members(case)
     if zc is not None:
         pair("zero_weight_member_ignored", zc, tols)
+    zm = zero_weight_members_masked(case)
+    if zm is not None:
+        pair("zero_weight_member_masked", zm, tols)
     sc = split_member(case)
     if sc is not None:
         pair("member_split", sc, tols)
@@ -1224,6 +1248,24 @@ def decorate(rng, case, dyadic):
         case["kinds"] = kinds
         if case["agg"] == "mn":
             case["kinds2"] = kinds if rng.random() < 0.5 else [rng.choice(["ma", "plain", "nomask", "allfalse"]) for _ in range(n)]
+    if case["mask"] is not None and n >= 2 and rng.random() < (0.6 if (ws is not None and any(w == 0 for w in ws)) else 0.12):
+        # zero weights TOGETHER with masks: in some cells exactly the weighted members are masked and only zero-weight
+        # members are left unmasked - the cell has no value, as if the zero-weight members were absent
+        if ws is None or all(w != 0 for w in ws):
+            ws = list(ws) if ws is not None else [1.0] * n
+            for i in rng.sample(range(n), rng.randint(1, n - 1)):
+                ws[i] = 0.0
+            case["weights"] = ws
+            if case.get("wtype") in ("int_list", "int_array") and any(w != int(w) for w in ws):
+                case["wtype"] = "list"
+        if any(w != 0 for w in ws):
+            zero = [i for i in range(n) if ws[i] == 0]
+            for c in rng.sample(range(cells), max(1, cells // 3)):
+                for i in range(n):
+                    case["mask"][i][c] = ws[i] != 0
+                for i in zero:
+                    case["mask"][i][c] = rng.random() < 0.4
+                case["mask"][rng.choice(zero)][c] = False
     if case["agg"] == "mn" and case["mask"] is not None and rng.random() < 0.25:
         # loc and scale of a member with different masks; case['mask'] (what the member counts as) is their union
         style = rng.choice(["loc_only", "scale_only", "different"])
